@@ -613,6 +613,96 @@ func c07Eager(kind string, b Bounds) *Scenario {
 	}
 }
 
+// c07Restart: a call is in flight when the first connection ends (Stop or the peer hanging up); after
+// Wait the server is started on a fresh channel, where the same id must be free again and a
+// cancellation aimed at it must reach only the call of the new connection.
+func c07Restart(end string, b Bounds) *Scenario {
+	return &Scenario{
+		Name:   "restart: call(1,slow) in flight when the connection ends by " + end + ", then id 1 on a new connection",
+		Params: map[string]any{"first_connection_ends_by": end},
+		Bounds: b,
+		New: func() *Instance {
+			h := &c07H{gates: NewGates(), running: map[string]string{}}
+			body := func() {
+				srv := jrpc2.NewServer(c07Assigner{h.handler()}, &jrpc2.ServerOptions{Concurrency: 4})
+				lib, peer, _ := NewPipe(PipeOpts{Name: "srv0", CloseUnblocksRecv: true, Quiet: true})
+				srv.Start(lib)
+				peer.Send([]byte(`{"jsonrpc":"2.0","id":1,"method":"slow0"}`))
+				vs.Await(func() bool { return h.running["1"] != "" }, "handler parked")
+				vs.GoNamed("opener", func() {
+					vs.AwaitQuiescence()
+					delete(h.running, "1")
+					h.gates.Open("slow0")
+				})
+				if end == "stop" {
+					srv.Stop()
+				} else {
+					peer.Close()
+				}
+				srv.Wait()
+				keys, ok := privKeys(srv, "used")
+				vs.Note("quiet", "after-wait", strings.Join(keys, ","), fmt.Sprint(ok))
+				lib2, peer2, _ := NewPipe(PipeOpts{Name: "srv", CloseUnblocksRecv: true})
+				srv.Start(lib2)
+				peer2.Send([]byte(`{"jsonrpc":"2.0","id":1,"method":"slow1"}`))
+				vs.AwaitQuiescence()
+				if h.running["1"] == "" {
+					vs.Note("restart-viol", "the call re-using id 1 on the new connection did not reach its handler")
+				}
+				peer2.Send([]byte(`{"jsonrpc":"2.0","id":1,"method":"fast2"}`)) // a duplicate now: must be refused
+				vs.AwaitQuiescence()
+				delete(h.running, "1")
+				h.gates.Open("slow1")
+				vs.AwaitQuiescence()
+				keys, ok = privKeys(srv, "used")
+				vs.Note("quiet", "final", strings.Join(keys, ","), fmt.Sprint(ok))
+				peer2.Close()
+				srv.WaitStatus()
+			}
+			check := func(x *vs.Exec) []Viol {
+				v := genericRules(x, nil)
+				if x.Outcome != "ok" {
+					return v
+				}
+				Hit("C07.R5")
+				for _, e := range x.Log {
+					switch e.K {
+					case "restart-viol":
+						v = append(v, Viol{"C07.R2", e.Arg(0)})
+					case "quiet":
+						if e.Arg(2) == "true" && e.Arg(1) != "" {
+							v = append(v, Viol{"C07.R5", "ids still reserved (" + e.Arg(1) + ") at '" + e.Arg(0) + "' although no call is in flight"})
+						}
+					case "h_exit":
+						if e.Arg(0) == "slow1" && e.Arg(3) != "-" {
+							v = append(v, Viol{"C07.R3", "the call on the new connection saw its context cancelled (" + e.Arg(3) + ") without any cause"})
+						}
+					}
+				}
+				outs := outEvents(x, "srv")
+				var raws []string
+				for _, o := range outs {
+					raws = append(raws, o.Raw)
+				}
+				Hit("C07.R1")
+				if len(outs) != 2 {
+					return append(v, Viol{"C07.R1", "expected two replies on the new connection (the duplicate's rejection, then the result), got " + strings.Join(raws, " ")})
+				}
+				m0, _, _ := parseRecord([]byte(outs[0].Raw))
+				m1, _, _ := parseRecord([]byte(outs[1].Raw))
+				if len(m0) != 1 || !isDupErr(m0[0]) {
+					v = append(v, Viol{"C07.R1", "the duplicate of the in-flight id was not refused with -32600: " + outs[0].Raw})
+				}
+				if len(m1) != 1 || !m1[0].Has("result") {
+					v = append(v, Viol{"C07.R2", "the call re-using id 1 on the new connection was not answered with its result: " + outs[1].Raw})
+				}
+				return v
+			}
+			return &Instance{Body: body, Check: check}
+		},
+	}
+}
+
 func c07Scenarios(tier string) []*Scenario {
 	var out []*Scenario
 	var firsts []c07Op
@@ -632,11 +722,13 @@ func c07Scenarios(tier string) []*Scenario {
 		for _, k := range c07EagerKinds {
 			out = append(out, c07Eager(k, Bounds{2, -1, 0}))
 		}
+		out = append(out, c07Restart("stop", Bounds{1, -1, 0}), c07Restart("eof", Bounds{1, -1, 0}))
 		return out
 	}
 	for _, k := range c07EagerKinds {
 		out = append(out, c07Eager(k, Bounds{3, -1, 1}))
 	}
+	out = append(out, c07Restart("stop", Bounds{2, -1, 1}), c07Restart("eof", Bounds{2, -1, 1}))
 	for _, f := range firsts {
 		out = append(out, c07History(f, 3, false, Bounds{2, -1, 0}))
 		out = append(out, c07History(f, 4, false, Bounds{1, 0, 0}))
